@@ -271,7 +271,7 @@ def nested_aggregate(rng, qg):
 def random_case(ctx, n, mon):
     rng = ctx.rng('random', n)
     mt = gen.gen_table(rng, 't', max_rows=ctx.pick(12, 40), ties=rng.random() < 0.3)
-    qg = gen.QueryGen(rng, max_depth=ctx.pick(3, 4))
+    qg = gen.QueryGen(rng, max_depth=ctx.pick(3, 4), subselects=0.08)
     if rng.random() < 0.2:
         q = nested_aggregate(rng, qg)
         q_table = 't'
